@@ -19,10 +19,16 @@ def run_one(name):
     sh(f'git -C /repo worktree add -q --detach {t} HEAD')
     try:
         r = sh(f'git -C {t} apply {d / "patch.diff"}')
+        partial = ''
         if r.returncode:
-            return name, {'error': 'patch does not apply'}
+            # a later fix: commit may touch one of the refactored functions: keep the hunks that still apply
+            r = sh(f'git -C {t} apply --reject {d / "patch.diff"}')
+            sh(f'find {t} -name "*.rej" -delete')
+            if not sh(f'git -C {t} status --porcelain').stdout.strip():
+                return name, {'error': 'patch does not apply'}
+            partial = ' (partial: some hunks no longer apply)'
         suite = sh(f'/verif/tools/baseline.py {t}').stdout.strip().splitlines()[0]
-        res = {'suite': suite, 'alarms': {}, 'cannot_analyse': {}}
+        res = {'suite': suite + partial, 'alarms': {}, 'cannot_analyse': {}}
         for pid in ALL:
             e = dict(os.environ, VERIF_REPO=str(t), VERIF_EVIDENCE_DIR=str(w / 'ev'), VERIF_OUT_DIR=str(w / 'out'))
             r = subprocess.run(['./check', pid], cwd=V, env=e, capture_output=True, text=True)
